@@ -1,7 +1,9 @@
 """C01 - Compiled pure-Python code behaves exactly like CPython (DESIGN 7/C01).
 
 Theorem side: Lib/MiniPy.v (CPython scoping with cells, run_cells), Model/M_Closure.v (the compiler's
-scope objects + outer_scope hops, run_scopes), Proof/P_Closure.v (simulation), Prop/C01.v.
+scope objects + outer_scope hops, run_scopes), Proof/P_Closure.v (simulation); Model/M_Unpack.v (the
+generated sequence-unpacking protocol vs Python's unpacking), Proof/P_Unpack.v; Prop/C01.v.
+Helpers: props/C01_unpack.py (unpacking, 3-way), props/C01_boundary.py (boundary-sized inputs, 2-way).
 Correspondence: generated programs run three ways - CPython exec of the source (property oracle), the
 module compiled by the compiler under test, and (MiniPy subset) the two extracted interpreters.
 """
@@ -9,14 +11,22 @@ import json, os, re, time
 import cybuild
 
 TITLE = "Compiled pure-Python code behaves exactly like CPython"
-EXTRACTS = ["Closure"]
+EXTRACTS = ["Closure", "Unpack"]
 RULE = ("random programs over a small name pool (so that shadowing, capture, global/nonlocal collisions are "
         "frequent): core = the MiniPy subset (nested def, lambda, closures, global/nonlocal, del, augmented "
         "assignment, if/while/return, calls, makers returning closures); ext = core + list comprehensions (own "
         "scope, captured iteration variable, walrus), default arguments capturing, class bodies (module level "
         "and inside functions, methods, class-level comprehensions), tuple unpacking, builtins, recursion; each "
         "program is called on generated argument tuples in sequence (module state persists); distinct by "
-        "(program source, call index); non-trivial = every program defines at least one nested function")
+        "(program source, call index); non-trivial = every program defines at least one nested function. "
+        "unpacking: every flat target shape of N targets (no star, one star at each position; N<=5 quick, <=6 "
+        "thorough) and nested shapes, in assignment / for / comprehension / genexpr / with / typed-rhs contexts and "
+        "'for k, v in obj.items()', over 16 iterable kinds (exact tuple/list, their subclasses with and without "
+        "__iter__, logging iterators, iterators raising at the end, generators, str, bytes, dict, set, range, "
+        "__getitem__ sequences, deque) and non-iterables, with lengths 0..N+2 at every level; distinct by (target, "
+        "context, value). boundary: 73 functions (closures, classes, comprehensions, lambdas, global/nonlocal, "
+        "augmented assignment, conditional expressions, walrus, unpacking, builtins) each called on sequences of "
+        "length 0, 1, 2, 3, 4 and on falsy items")
 EXPLANATION = ("theorems (closed, no axioms): for ALL MiniPy programs, entry expressions and ALL fuel the compiler's closure "
                "scheme run_scopes (one scope object per activation of a function with captured variables, closure "
                "pointer = cur_scope of the defining function when the inner function has from_closure entries, "
@@ -27,22 +37,38 @@ EXPLANATION = ("theorems (closed, no axioms): for ALL MiniPy programs, entry exp
                "refuted by 'del' of an unbound module global and proved as _partial: equal, or both runs stop at the "
                "same point with the same trace, NameError vs AttributeError; with the proposed repair "
                "(delglob_fixed) plain equality holds; Scope.lookup's hop computation finds a variable exactly when "
-               "symtable's owner resolution does. partial: the theorem covers name resolution and closure conversion "
+               "symtable's owner resolution does. Unpacking (closed, no axioms, unbounded in targets, nesting and "
+               "items): the generated protocol cy_assign (exact tuple/list fast path by size check + item copy; "
+               "generic iterator path with its 'need more than k' / 'too many' decisions and end check; starred "
+               "path: left targets by iteration, rest into a list, length guard len < n_right, right targets read "
+               "from the end by index; nested targets left to right) yields, for every target tree and every "
+               "value, exactly the trace (observable next-calls, bindings in order) and outcome of Python's "
+               "unpacking ref_assign, the exception carrying the same count; no out-of-bounds index, the starred "
+               "target is a new list, the length guard is tight (<= is refuted at the boundary); "
+               "__Pyx_unpack_tuple2 ('for k, v in obj.items()') is refuted for tuple subclasses overriding "
+               "__iter__ (finding) and proved otherwise / for the proposed PyTuple_CheckExact. partial: the theorem covers name resolution and closure conversion "
                "of the MiniPy subset only (no comprehensions, classes, default arguments, exception handlers); "
                "expression/statement code generation, C-API calls and optimisation passes are not modelled and are "
                "covered only by the differential run (3-way on the MiniPy subset: extracted run_scopes vs compiled "
                "module, extracted run_cells vs CPython, compiled vs CPython; 2-way CPython-vs-compiled on the "
-               "extended programs). Exception args/messages are not compared (counted in "
-               "exception_message_differs).")
+               "extended programs, and on the boundary-sized calls; 3-way cy_assign vs compiled, ref_assign vs "
+               "CPython, compiled vs CPython on the unpacking cases). Exception args/messages are not compared "
+               "for the random and boundary programs (counted in exception_message_differs); for unpacking they "
+               "are compared and differ only by the registered wording class.")
 TRUSTED = ["CPython 3.12 executing the same source text (exec) as the property oracle",
            "gcc as a conforming C compiler for the generated module",
            "MiniPy's value universe and operators (int/bool/None/function) as a model of CPython's, tested against exec",
-           "cells addressed by (activation number, name) as a naming of CPython's fresh cell objects"]
+           "cells addressed by (activation number, name) as a naming of CPython's fresh cell objects",
+           "M_Unpack.v as a transcription of SequenceNode.generate_*_unpacking_code / __Pyx_unpack_tuple2 (tested 3-way); "
+           "PySequence_List, PyObject_GetIter, tp_iternext as their documented contracts (items then StopIteration or an error)"]
 ASSUMPTIONS = ["no exception handlers inside MiniPy programs: an exception ends the run",
                "a program that the compiler rejects at compile time is outside the supported subset (counted, not judged)"]
 
 # after the 'del of an unbound module global' fix is applied to /repo flip this to "1"
 DELGLOB_FIXED = os.environ.get("C01_DELGLOB_FIXED", "1")
+# after proposed_fixes/C01-items_loop_tuple_subclass_iter_ignored.diff (PyTuple_CheckExact in
+# __Pyx_unpack_tuple2) is applied to /repo flip this to "1"
+FX_TUPLE2 = os.environ.get("C01_FX_TUPLE2", "0")
 FUEL = 40000
 
 # ------------------------------------------------------------------------------------------------
@@ -1290,6 +1316,10 @@ def run(ctx):
     t0 = time.time()
     progs = gen_programs(ctx, n_core, n_ext)
     wd = ctx.workdir
+    import props.C01_unpack as U
+    import props.C01_boundary as B
+    umods, ufuncs, ucases = U.prepare(ctx)
+    bplan = B.prepare(ctx)
     T["gen"] = round(time.time() - t0, 1); t0 = time.time()
     ctx.extra["phase_s"] = T
     # ---- 1. which programs does the compiler accept (front end only, one warmed process)
@@ -1361,8 +1391,16 @@ def run(ctx):
     # ---- 3. compiled
     specs = [dict(name=m["name"], source=m["source"], workdir=wd, suffix=".py",
                   cflags=["-O0"]) for m in mods]
-    built = cybuild.build_many(specs, jobs=4 if quick else 8)
+    nprog = len(specs)
+    specs = specs + U.build_specs(umods, wd) + [B.build_spec(ctx)]
+    built = cybuild.build_many(specs, jobs=6 if quick else 8)
+    built_u, built_b = built[nprog:-1], built[-1]
+    built = built[:nprog]
     T["build"] = round(time.time() - t0, 1); t0 = time.time()
+    # ---- 3b. unpacking (3-way with the extracted unpack models) and boundary-sized inputs (2-way)
+    U.compare(ctx, umods, built_u, ufuncs, ucases, FX_TUPLE2)
+    B.compare(ctx, bplan, built_b)
+    T["unpack_boundary"] = round(time.time() - t0, 1); t0 = time.time()
     cplan = []
     for m, (so, err) in zip(mods, built):
         if err is not None:
@@ -1514,6 +1552,11 @@ def check_model(ctx, p, j, ci, oi, mod_out, inp0, cumulative, impl_ok=True):
 def replay(ctx, obj):
     inp = obj["input"]
     wd = ctx.workdir
+    if "function" in inp:
+        print(json.dumps(obj, indent=1)[:6000])
+        print("(an unpacking / boundary case: the function source and the input value above reproduce it; "
+              "props/C01_unpack.py WORKER builds the value from its description)")
+        return
     src = inp["source"]
     name = "c01_replay"
     with open(os.path.join(wd, name + "_src.py"), "w") as f:
